@@ -143,8 +143,8 @@ fn wall_cap(tier: &str, n: usize) -> Duration {
 pub fn audit_hook_coverage() -> Vec<String> {
     // code that uses synchronisation primitives without going through the wrappers is invisible to the scheduler
     let mut hits = vec![];
-    let root = std::path::Path::new("/repo/src");
-    let mut stack = vec![root.to_path_buf()];
+    let root = std::path::PathBuf::from(std::env::var("VERIF_REPO").unwrap_or("/repo".into())).join("src");
+    let mut stack = vec![root.clone()];
     while let Some(d) = stack.pop() {
         let Ok(rd) = std::fs::read_dir(&d) else { continue };
         for e in rd.flatten() {
